@@ -650,8 +650,11 @@ class SSHTransportBase(protocol.Protocol):
         encPacket = self.currentEncryptions.encrypt(
             packet
         ) + self.currentEncryptions.makeMAC(self.outgoingPacketSequence, packet)
-        self.transport.write(encPacket)
+        # The sequence number is taken before the packet is handed over: a
+        # transport that delivers from inside write() can bring us back here
+        # for the next packet.
         self.outgoingPacketSequence += 1
+        self.transport.write(encPacket)
 
     def getPacket(self):
         """
